@@ -21,6 +21,7 @@ ZERO_LIT = ADDRS[0]
 LITERALS = ADDRS[1:4]
 CMP_OPS = ["==", "!=", "<", "<=", ">", ">="]
 ADDR_FIELDS = ["RekeyTo", "CloseRemainderTo", "AssetCloseTo", "Sender"]
+PINNED_FIELDS = ADDR_FIELDS + ["Fee", "TypeEnum", "OnCompletion", "ApplicationID"]
 OPAQUE_INT = ["FirstValid", "Amount", "LastValid", "AssetAmount"]
 TYPE_NAMES = {1: "pay", 2: "keyreg", 3: "acfg", 4: "axfer", 5: "afrz", 6: "appl"}
 OC_NAMES = {0: "NoOp", 1: "OptIn", 2: "CloseOut", 3: "ClearState", 4: "UpdateApplication", 5: "DeleteApplication"}
@@ -39,6 +40,7 @@ class Cfg:
         self.off = set(off or [])
         self.focus = focus  # governed fields to concentrate on
         self.mode = mode
+        self.pin: Optional[int] = None  # pinned mode: own position asserted first, governed fields read through it
 
     def on(self, feat: str) -> bool:
         return feat not in self.off
@@ -71,16 +73,20 @@ def addr_const(draw, cfg: Cfg, mode: str, version: int):
 @st.composite
 def read_spec(draw, cfg: Cfg, field: str, version: int, allow_group=True):
     """how a field of the *governed/other* transaction is read"""
+    if cfg.pin is not None and field in PINNED_FIELDS:
+        kind = draw(st.sampled_from(["gtxn", "gtxns"] if version >= 3 else ["gtxn"]))
+        return ["read", {"kind": kind, "field": field, "idx": cfg.pin}]
     kinds = ["txn"] * 6
     if allow_group and cfg.on("gtxn_reads"):
         kinds += ["gtxn"] * 2
         if version >= 3:
             kinds += ["gtxns", "rel"]
+            kinds += ["gtxns_self", "gtxns_gi"]
         if cfg.group_heavy:
-            kinds = ["txn"] * 2 + ["gtxn"] * 3 + (["gtxns"] * 2 + ["rel"] * 4 if version >= 3 else [])
+            kinds = ["txn"] * 2 + ["gtxn"] * 3 + (["gtxns"] * 2 + ["rel"] * 4 + ["gtxns_self"] * 2 + ["gtxns_gi"] if version >= 3 else [])
     kind = draw(st.sampled_from(kinds))
     spec: Dict[str, Any] = {"kind": kind, "field": field}
-    if kind in ("gtxn", "gtxns"):
+    if kind in ("gtxn", "gtxns", "gtxns_gi"):
         spec["idx"] = draw(st.sampled_from([0, 0, 1, 1, 2, 3, 15]))
     elif kind == "rel":
         spec["off"] = draw(st.sampled_from([1, 1, 2, 3, 15, 0] if cfg.group_heavy else [1, 1, 2, 3, 15]))
@@ -180,8 +186,12 @@ def stmts(draw, cfg: Cfg, mode: str, version: int, fields, subs: List[str], dept
         if version >= 8 and depth < 2:
             kinds += ["switch"]
         kinds += ["return", "approve", "err", "reject"] if depth > 0 else ["return"]
+        if version >= 3 and cfg.on("gtxn_reads") and cfg.on("pinidx_stmt") and any(f in ADDR_FIELDS or f == "Fee" for f in fields):
+            kinds += ["pinidx"]
         if cfg.profile == "modelled" and version >= 3:
             kinds += ["shuffle", "storecond", "joinflag", "joinflag"]
+            if cfg.on("gtxn_reads"):
+                kinds += ["carryindex"]
             if subs and version >= 4:
                 kinds += ["passcond"]
         kind = draw(st.sampled_from(kinds))
@@ -221,6 +231,23 @@ def stmts(draw, cfg: Cfg, mode: str, version: int, fields, subs: List[str], dept
             out.append(["storecond", draw(cond(cfg, mode, version, fields)), draw(st.integers(10, 13))])
         elif kind == "passcond":
             out.append(["passcond", draw(cond(cfg, mode, version, fields))])
+        elif kind == "pinidx":
+            # the contract validates its own position and then its own field through that absolute index
+            i = draw(st.sampled_from([0, 1, 2, 15, 15]))
+            f = draw(st.sampled_from([x for x in fields if x in ADDR_FIELDS or x == "Fee"]))
+            rd = ["read", {"kind": draw(st.sampled_from(["gtxn", "gtxns"])), "field": f, "idx": i}]
+            if f == "Fee":
+                c2 = ["cmp", "<=", rd, ["int", 1000, "1000", "int"]]
+            else:
+                c2 = ["cmp", "==", rd, ["addr", "ZERO", "global"]]
+            c1 = ["cmp", "==", ["read", {"kind": "txn", "field": "GroupIndex"}], ["int", i, str(i), "int"]]
+            if draw(st.booleans()):
+                out.append(["assert", ["and", c1, c2]])
+            else:
+                out.append(["assert", c1])
+                out.append(["assert", c2])
+        elif kind == "carryindex":
+            out.append(["carryindex", draw(st.sampled_from(["gi-1", "gi+1", "int0", "int1"])), draw(st.sampled_from(["FirstValid", "Amount"]))])
         elif kind == "joinflag":
             out.append(["joinflag", draw(cond(cfg, mode, version, fields)), draw(atom(cfg, mode, version, fields)),
                         draw(st.sampled_from(["&&", "&&", "||"])), draw(st.integers(0, 3)), draw(st.booleans())])
@@ -296,6 +323,16 @@ class Lower:
                 self.emit(I("int", s["idx"]))
                 self.emit(I("gtxns", s["field"]))
                 self.feats.append("read_gtxns")
+            elif k == "gtxns_self":
+                # own transaction read through gtxns with its own index
+                self.emit(I("txn", "GroupIndex"))
+                self.emit(I("gtxns", s["field"]))
+                self.feats.append("read_gtxns_self")
+            elif k == "gtxns_gi":
+                # index taken from another member's GroupIndex field (= that member's position)
+                self.emit(I("gtxn", s["idx"], "GroupIndex"))
+                self.emit(I("gtxns", s["field"]))
+                self.feats.append("read_gtxns_via_gtxn_groupindex")
             elif k == "rel":
                 if s.get("order"):
                     self.emit(I("int", s["off"]))
@@ -551,6 +588,22 @@ class Lower:
             self.emit(L(mid))
             self.emit(I("load", s[2]))
             self.emit(I("assert"))
+        elif k == "carryindex":
+            # a group index is computed in one block and used by gtxns in the next one (the tool cannot tell
+            # which member is read); the value read is dropped, so the statement is stack neutral
+            self.feats.append("carryindex")
+            how, fld = s[1], s[2]
+            if how.startswith("gi"):
+                self.emit(I("txn", "GroupIndex"))
+                self.emit(I("int", 1))
+                self.emit(I("-" if how == "gi-1" else "+"))
+            else:
+                self.emit(I("int", int(how[-1])))
+            nxt = self.lab()
+            self.emit(I("b", nxt))
+            self.emit(L(nxt))
+            self.emit(I("gtxns", fld))
+            self.emit(I("pop"))
         elif k == "joinflag":
             # a flag is left on the stack by two branches that join; it is combined with a comparison in the
             # join block and the result is consumed positively or negatively
@@ -739,9 +792,14 @@ DETECTOR_FIELDS = {
 
 @st.composite
 def semantic_program(draw, profile: str = "modelled", disabled=(), focus: Optional[List[str]] = None,
-                     mode: Optional[str] = None, max_stmts: int = 12, with_ast: bool = False):
+                     mode: Optional[str] = None, max_stmts: int = 12, with_ast: bool = False, pinned: bool = False):
     cfg = Cfg(profile, disabled, focus, mode)
     version = draw(st.sampled_from([8, 8, 8, 7, 6, 5, 4, 4, 3, 2]))
+    if pinned:
+        # the program first asserts its own group position i; every check of a governed field is then spelled
+        # `gtxn i F` / `int i; gtxns F`
+        cfg.pin = draw(st.sampled_from([0, 1, 2, 7, 14, 15, 15]))
+        cfg.off |= {"pinidx_stmt"}
     m = mode or draw(st.sampled_from(["lsig", "lsig", "app"]))
     fields = list(focus) if focus else list(DETECTOR_FIELDS[m])
     if m == "lsig" and not cfg.on("oc_appid_checks_in_lsig"):
@@ -772,6 +830,10 @@ def semantic_program(draw, profile: str = "modelled", disabled=(), focus: Option
             subs[sub_names[k]].insert(0, ["call", sub_names[k + 1]])
         subs[sub_names[-1]].insert(0, ["if", draw(cond(cfg, m, version, fields)), [["approve"]], [], draw(st.sampled_from(["bz", "bnz"]))])
         main[0:0] = [["call", sub_names[0]], ["assert", draw(cond(cfg, m, version, fields))]]
+    if cfg.pin is not None:
+        gi = ["read", {"kind": "txn", "field": "GroupIndex"}]
+        ci = ["int", cfg.pin, str(cfg.pin), "int"]
+        main[0:0] = [["assert", ["cmp", "==", gi, ci] if draw(st.booleans()) else ["cmp", "==", ci, gi]]]
     ast = {
         "version": version, "mode": m, "main": main, "subs": {n: subs[n] for n in sub_names},
         "subs_first": draw(st.booleans()), "end": draw(st.sampled_from([0, 0, 0, 1])),
@@ -788,6 +850,9 @@ def semantic_program(draw, profile: str = "modelled", disabled=(), focus: Option
     prog = lower_program(ast, cfg)
     if chain:
         prog["features"] = sorted(set(prog["features"]) | {"deep_call_chain"})
+    if cfg.pin is not None:
+        prog["pin"] = cfg.pin
+        prog["features"] = sorted(set(prog["features"]) | {"pinned_index"})
     if with_ast:
         prog["ast"] = ast
         prog["cfg_off"] = sorted(cfg.off)
